@@ -637,6 +637,14 @@ ssize_t vw_sendto(int fd, const void *buf, size_t len, int flags,
 	}
 	memcpy(&d, dst, dstlen);
 	if (d.ss_family == AF_INET) memset(((struct sockaddr_in *)&d)->sin_zero, 0, 8);
+	/* like the kernel: an IPv4 socket refuses an IPv6 destination (EAFNOSUPPORT) and iodined's IPv6 socket is
+	 * IPV6_V6ONLY, so an IPv4 destination is unreachable there - nothing leaves the machine in either case */
+	if ((d.ss_family == AF_INET || d.ss_family == AF_INET6) && (s->addr.ss_family == AF_INET || s->addr.ss_family == AF_INET6) &&
+	    d.ss_family != s->addr.ss_family) {
+		W.family_mismatch_sends++;
+		errno = s->addr.ss_family == AF_INET ? EAFNOSUPPORT : ENETUNREACH;
+		return -1;
+	}
 	int di = vw_dgram_new(&s->addr, s->addrlen, &d, dstlen, buf, (int)len, W.cur);
 	if (!W.hooks.on_send) vw_fatal("no on_send hook");
 	W.hooks.on_send(di);
